@@ -605,7 +605,7 @@ fn compare(d: &Dump, ud: &Dump) -> Option<String> {
     None
 }
 
-fn finish(out: Result<w::Dwarf, w::ConvertError>, unf: Option<&Result<Dump, String>>, with_attrs: bool) -> String {
+fn finish(out: Result<w::Dwarf, w::ConvertError>, unf: Option<&Result<Dump, String>>, with_attrs: bool, split: bool) -> String {
     let mut out = match out {
         Ok(o) => o,
         Err(e) => {
@@ -620,6 +620,11 @@ fn finish(out: Result<w::Dwarf, w::ConvertError>, unf: Option<&Result<Dump, Stri
         Ok(s) => s,
         Err(e) => {
             return match unf {
+                // the filtered split conversion SUCCEEDED and produced a reference to a DIE that is never added, while
+                // the unfiltered split conversion reports the reference as a conversion error
+                Some(Err(u)) if split && u.starts_with("convert ") && errname(&e) == "InvalidReference" => {
+                    format!("splitdangling-mismatch {} {}", errname(&e), u.replace(' ', ":"))
+                }
                 Some(Err(_)) => format!("err {}", errname(&e)),
                 _ => format!("write-mismatch {}", errname(&e)),
             }
@@ -705,10 +710,10 @@ pub fn run(t: &[&str]) -> String {
             let secs = build(ver, fmt, asz, 1, &f);
             let dw = load(&secs);
             if tol {
-                finish(filtered(&dw, &req, true), None, true)
+                finish(filtered(&dw, &req, true), None, true, false)
             } else {
                 let unf = unfiltered(&secs);
-                finish(filtered(&dw, &req, false), Some(&unf.dump), true)
+                finish(filtered(&dw, &req, false), Some(&unf.dump), true, false)
             }
         }
         "c1901.split" => {
@@ -730,7 +735,7 @@ pub fn run(t: &[&str]) -> String {
                     Ok(secs) => dump(&secs),
                 },
             };
-            finish(split_filtered(&skel, &dwo, Some(&req)), Some(&unf), false)
+            finish(split_filtered(&skel, &dwo, Some(&req)), Some(&unf), false, true)
         }
         _ => format!("unknown-stream {}", t[0]),
     }
